@@ -297,6 +297,22 @@ func (e *Engine) Load(name string) (*Template, error) {
 	// If we failed to load the template from any loader
 	if template == nil {
 		// If we have collected errors from loaders, include them in the error message
+		// A loader that failed for another reason than not having the template (an unreadable
+		// file, a broken backend) is a failure of the load, not a missing template: the error keeps
+		// the loader's error reachable (errors.Is / errors.As) and is not ErrTemplateNotFound, so
+		// that include ... ignore missing does not hide it
+		var loaderFailures []error
+		for _, lerr := range loaderErrors {
+			if !errors.Is(lerr, ErrTemplateNotFound) {
+				loaderFailures = append(loaderFailures, lerr)
+			}
+		}
+		if len(loaderFailures) > 0 {
+			err := fmt.Errorf("template '%s' could not be loaded: %w", name, errors.Join(loaderFailures...))
+			LogError(err, "loader failure")
+			return nil, err
+		}
+
 		if len(loaderErrors) > 0 {
 			errorDetails := strings.Builder{}
 			errorDetails.WriteString(fmt.Sprintf("Template '%s' not found. Tried %d loaders:\n", name, len(loaderErrors)))
